@@ -153,6 +153,18 @@ where
     I: Fn(usize) -> T + Sync,
     B: Fn(&mut T, usize) + Sync,
 {
+    par_run_map(n, chunk, init, body, |t| t)
+}
+
+/// Like `par_run`, but the worker state may be thread-bound (e.g. hold an `Rc` shared with
+/// a hook sink); `finish` turns it into the sendable result on the worker's own thread.
+pub fn par_run_map<T, R, I, B, F>(n: usize, chunk: usize, init: I, body: B, finish: F) -> Vec<R>
+where
+    R: Send,
+    I: Fn(usize) -> T + Sync,
+    B: Fn(&mut T, usize) + Sync,
+    F: Fn(T) -> R + Sync,
+{
     let workers = threads().min(n.max(1));
     let next = AtomicUsize::new(0);
     let chunk = chunk.max(1);
@@ -162,6 +174,7 @@ where
             let next = &next;
             let init = &init;
             let body = &body;
+            let finish = &finish;
             handles.push(
                 std::thread::Builder::new()
                     .stack_size(16 << 20)
@@ -177,7 +190,7 @@ where
                                 body(&mut state, i);
                             }
                         }
-                        state
+                        finish(state)
                     })
                     .expect("spawn worker"),
             );
